@@ -27,6 +27,25 @@ theorem C15_abm_steps_eq_clock {s s' : Sim} {f k : Nat} (h : ReachableAbm s) (hT
     (hr : runUntil f s ((k : Int) * U) = some s') : s'.steps = k ∧ s'.now = (k : Int) * U :=
   steps_eq_clock (reachable_inv h.reachable).1 (reachableAbm_inv h) hT hr
 
+/-- **`model.steps` tracks the clock in every reachable state** (after `run_next_event` too, where equality can fail):
+    `steps` ticks lie behind the clock and the next one not yet: `steps·U ≤ now ≤ (steps+1)·U`, and the step of tick
+    `steps+1` is armed, live, on the list.  So `steps = ⌊now/U⌋`, except in the one situation `now = (steps+1)·U` — the clock
+    has reached a tick whose step is still waiting *at the current time*: this is what `run_next_event` leaves when it executes
+    a user event of HIGH priority that was scheduled for that tick before the step was re-armed (`abm1` below); the very next
+    event executed is then that step.  After `run_until` to a tick the counter equals the clock (`C15_abm_steps_eq_clock`). -/
+theorem C15_abm_steps_track_clock {s : Sim} (h : ReachableAbm s) :
+    (s.steps : Int) * U ≤ s.now ∧ s.now ≤ ((s.steps : Int) + 1) * U ∧
+    ∃ st ∈ s.pending, st.isStep = true ∧ st.cancelled = false ∧ st.dead = false ∧ st.time = ((s.steps : Int) + 1) * U := by
+  have hinv := reachableAbm_inv h
+  have hw := (reachable_inv h.reachable).1
+  obtain ⟨st, ha⟩ := hinv.armed
+  have hmem : st ∈ s.pending := by
+    have : st ∈ stepEvs s.pending := by rw [ha.only]; simp
+    exact (List.mem_filter.mp this).1
+  have hfut := hw.future st hmem
+  rw [ha.time] at hfut
+  exact ⟨hinv.le, hfut, st, hmem, ha.isStep, ha.live, ha.alive, ha.time⟩
+
 /-- `model.step` has run exactly once at every integer tick 1 … steps, and at no other time. -/
 theorem C15_step_once_per_tick {s : Sim} (h : ReachableAbm s) :
     stepClocks s.log = (List.range s.steps).map (fun (i : Nat) => ((i : Int) + 1) * U) :=
@@ -66,6 +85,11 @@ example : piecesWithin 20 2048 abm0 [.for 1024, .until 2048] :=
   ⟨by decide, fun _ _ => ⟨Int.le_refl _, fun _ _ => trivial⟩⟩
 example : ((runPieces 20 abm0 [.for 1024, .next, .until 2048]).map fun s => (s.steps, s.now, s.log.map (·.clock))) =
     some (2, 2048, [1024, 1024, 2048, 2048]) := by decide
+/-- the exception of `C15_abm_steps_track_clock` is real: a HIGH-priority user event scheduled for tick 2 before tick 1's
+    step re-arms runs first at tick 2; `run_next_event` then leaves clock 2 with `steps = 1` -/
+def abm1 : Sim := runNext ((runUntil 20 (doCmd (setup (init .abm (fun _ => []) [])) (.schedAbs 2048 1 0)) 1024).getD abm0)
+example : (abm1.steps, abm1.now, abm1.log.map (·.isStep)) = (1, 2048, [true, false]) := by decide
+example : ((runNext abm1).steps, (runNext abm1).now) = (2, 2048) := by decide
 end Example
 
 end Mesa.Devs
